@@ -159,6 +159,7 @@ PROPS = {
         assumptions=["dagjson.Decode (go-ipld-prime) is outside the model: the DAG-JSON path is compared on the node as it reads back from its own JSON text"],
     ),
     "C08": dict(
+        tie=["Ucan.Props.Tie.Sealed"],
         props_module="Ucan.Props.C08",
         streams=["sealed", "container", "cidstream"],
         # of the container stream: the cases whose point is WHICH CID a token is known under after a read (a block labelled with
